@@ -8,6 +8,12 @@
 //!                                  and finally  S <json>  the distribution
 //!   c04 replay                     the same for "C <id> <ops>" lines read from stdin (C04_VERBOSE=1: full bytes)
 //!   c04 directed                   fixed cases: D <name> <json>
+//!   c04 status <seed> <n>          CachedRef status census (hook verif_hooks_status): n small states, each with a random
+//!                                  sequence of persistence operations; prints
+//!                                     K <id> <key:value,...>;<ops>   (ops over S L C X Z: compared with the Coq status
+//!                                                                     machine s_run; with M = thaw + modify + freeze: direct only)
+//!                                     R <id> <census>|...            after each op: nodes Disk,Memory,Cached, values
+//!                                                                     Disk,Memory,Cached,inline, store length, flags
 //!
 //! Operations:  I k v  insert          D k  delete            P k  delete_prefix      G k  lookup
 //!              M k v  get_mut+write   T k  iterate prefix    +    new generation     - r  normalize
@@ -811,7 +817,180 @@ fn emit(id: &str, ops: &[Op], stats: &mut BTreeMap<String, u64>) {
     *stats.entry("freezes".into()).or_insert(0) += nf;
 }
 
+fn census_of(ps: &PersistentState) -> [u64; 7] {
+    match ps {
+        PersistentState::Empty => [0; 7],
+        PersistentState::Root(r) => concordium_smart_contract_engine::v1::trie::low_level::verif_hooks_status::verif_status_census(r),
+    }
+}
+
+/// One case of the status run.  Values are one byte repeated (short text for the Coq side).
+fn status_case(id: &str, rng: &mut Rng, stats: &mut BTreeMap<String, u64>) {
+    let uni = KeyUniverse::new(rng);
+    let nkeys = 1 + rng.below(7) as usize;
+    let mut items: BTreeMap<Vec<u8>, (u8, usize)> = BTreeMap::new();
+    for _ in 0..nkeys {
+        let mut k = uni.key(rng);
+        k.truncate(12);
+        let len = match rng.below(8) {
+            0 => 0,
+            1 => 64,
+            2 => 65,
+            3 => 70,
+            4 => 63,
+            _ => rng.below(6) as usize,
+        };
+        items.insert(k, (rng.next() as u8, len));
+    }
+    let direct_only = rng.chance(1, 4);
+    let nops = 3 + rng.below(8);
+    let mut ops = String::new();
+    for _ in 0..nops {
+        let c = match rng.below(if direct_only { 12 } else { 10 }) {
+            0..=2 => 'S',
+            3..=4 => 'L',
+            5..=6 => 'C',
+            7 => 'X',
+            8 => 'Z',
+            9 => 'S',
+            _ => 'M',
+        };
+        ops.push(c);
+    }
+    let desc: Vec<String> =
+        items.iter().map(|(k, (b, n))| format!("{}:{}*{}", hex(k), b, n)).collect();
+    println!("K {} {};{}", id, desc.join(","), ops);
+    let res = guarded(|| {
+        let kv: Vec<(Vec<u8>, Vec<u8>)> = items.iter().map(|(k, (b, n))| (k.clone(), vec![*b; *n])).collect();
+        let mut ps = PersistentState::from_iterator(kv.iter().map(|(k, v)| (&k[..], v.clone())));
+        let mut store: Vec<u8> = Vec::new();
+        let mut hash = hash_of(&ps, &store);
+        let mut outs: Vec<String> = Vec::new();
+        let mut mcount = 0u8;
+        for c in ops.chars() {
+            let before = census_of(&ps);
+            let before_len = store.len();
+            let mut flags = String::new();
+            match c {
+                'S' | 'L' => {
+                    let r = ps.store_update(&mut store).expect("store_update");
+                    let settled = before[1] <= 1 && before[4] == 0 && !matches!(ps, PersistentState::Empty);
+                    if settled {
+                        // nothing in memory below the root: only the root record (Memory root) and the top record
+                        let n = store.len();
+                        let x = u64::from_be_bytes(store[n - 8..].try_into().unwrap()) as usize;
+                        let root_mem = before[1] == 1;
+                        if root_mem {
+                            let reclen = u64::from_be_bytes(store[x..x + 8].try_into().unwrap()) as usize;
+                            if x != before_len || x + 8 + reclen + 17 != n {
+                                flags.push_str("!REWRITE");
+                            }
+                        } else if n != before_len + 17 {
+                            flags.push_str("!REWRITE");
+                        }
+                    }
+                    if c == 'L' {
+                        let mut loader = Loader::new(&store[..]);
+                        ps = PersistentState::load_from_location(&mut loader, r).expect("load_from_location");
+                    }
+                    let a = census_of(&ps);
+                    if a[1] > 1 || a[4] != 0 {
+                        flags.push_str("!SETTLED");
+                    }
+                }
+                'C' => {
+                    let mut loader = Loader::new(&store[..]);
+                    ps.cache(&mut loader);
+                    let a = census_of(&ps);
+                    if a[0] != 0 || a[3] != 0 {
+                        flags.push_str("!NOTCACHED");
+                    }
+                    if a[0] + a[1] + a[2] < before[0] + before[1] + before[2] {
+                        flags.push_str("!LOST");
+                    }
+                }
+                'X' => {
+                    let mut ns: Vec<u8> = Vec::new();
+                    let ps2 = {
+                        let mut loader = Loader::new(&store[..]);
+                        ps.migrate(&mut ns, &mut loader).expect("migrate")
+                    };
+                    if census_of(&ps) != before {
+                        flags.push_str("!SOURCESTATUS");
+                    }
+                    ps = ps2;
+                    store = ns;
+                }
+                'Z' => {
+                    let mut out = Vec::new();
+                    {
+                        let mut loader = Loader::new(&store[..]);
+                        ps.serialize(&mut loader, &mut out).expect("serialize");
+                    }
+                    if census_of(&ps) != before {
+                        flags.push_str("!SOURCESTATUS");
+                    }
+                    let mut src = &out[..];
+                    ps = PersistentState::deserialize(&mut src).expect("deserialize");
+                }
+                _ => {
+                    // thaw, modify one key, freeze (not part of the Coq status machine)
+                    mcount = mcount.wrapping_add(1);
+                    let mut loader = Loader::new(&store[..]);
+                    let mut t = ps.clone().into_trie(&mut loader);
+                    let k = kv[(mcount as usize) % kv.len()].0.clone();
+                    if mcount % 3 == 0 {
+                        let _ = t.delete(&mut loader, &k);
+                    } else {
+                        let _ = t.insert(&mut loader, &k, vec![mcount; if mcount % 2 == 0 { 70 } else { 3 }]);
+                    }
+                    ps = match t.freeze(&mut loader, &mut EmptyCollector) {
+                        Some(n) => PersistentState::from(n),
+                        None => PersistentState::Empty,
+                    };
+                    hash = hash_of(&ps, &store);
+                }
+            }
+            // reading (hash / iteration / lookup) must not change any status, and the hash must be kept
+            let a = census_of(&ps);
+            if hash_of(&ps, &store) != hash {
+                flags.push_str("!HASH");
+            }
+            let _ = contents(&ps, &store);
+            if census_of(&ps) != a {
+                flags.push_str("!READCHANGES");
+            }
+            outs.push(format!("{},{},{},{},{},{},{},{}{}", a[0], a[1], a[2], a[3], a[4], a[5], a[6], store.len(), flags));
+        }
+        outs
+    });
+    *stats.entry(if direct_only { "direct_only_cases".into() } else { "model_cases".into() }).or_insert(0) += 1;
+    *stats.entry("status_ops".into()).or_insert(0) += nops;
+    for c in ops.chars() {
+        *stats.entry(format!("status_op_{}", c)).or_insert(0) += 1;
+    }
+    match res {
+        Ok(outs) => println!("R {} {}", id, outs.join("|")),
+        Err(e) => {
+            println!("R {} PANIC", id);
+            println!("O {} {}", id, e.replace('\n', " "));
+        }
+    }
+}
+
 fn directed() {
+    // 0. the stem-length tag at the u32 boundary (write_node_path_and_value_tag writes `stem_len as u32`)
+    {
+        use concordium_smart_contract_engine::v1::trie::low_level::verif_hooks_status::verif_path_tag;
+        let mut m = serde_json::Map::new();
+        for n in [0u64, 1, 63, 64, 65, 255, 65535, 65536, 4294967294, 4294967295, 4294967296, 4294967297, 4294967301, 8589934592] {
+            for nv in [false, true] {
+                let r = guarded(|| hex(&verif_path_tag(n as usize, nv))).unwrap_or_else(|_| "PANIC".into());
+                m.insert(format!("{}:{}", n, if nv { 0 } else { 1 }), serde_json::Value::String(r));
+            }
+        }
+        println!("D path_tag {}", serde_json::Value::Object(m));
+    }
     // 1. refreeze of an unmodified thawed state: same root, nothing collected; one modified key: only its path
     let items: Vec<(Vec<u8>, Vec<u8>)> = vec![
         (b"aa".to_vec(), vec![1]),
@@ -950,6 +1129,55 @@ fn main() {
             }
         }
         "directed" => directed(),
+        "bigkey" => {
+            // NOT part of the check (needs ~10 GiB): one key of `n` bytes (default 2^31: a stem of 2^32 nibbles, one more
+            // than `stem_len as u32` can hold); store_update, load_from_location, lookup.
+            let n: usize = args.get(2).map(|s| s.parse().unwrap()).unwrap_or(1usize << 31);
+            let key = vec![0xabu8; n];
+            let r = guarded(|| {
+                let empty: &[u8] = &[];
+                let mut l0 = Loader::new(empty);
+                let mut t = PersistentState::Empty.into_trie(&mut l0);
+                t.insert(&mut l0, &key, vec![7u8; 3]).unwrap();
+                let mut ps = match t.freeze(&mut l0, &mut EmptyCollector) {
+                    Some(n) => PersistentState::from(n),
+                    None => PersistentState::Empty,
+                };
+                let h0 = hash_of(&ps, empty);
+                let look0 = ps.lookup(&mut l0, &key);
+                let mut store: Vec<u8> = Vec::new();
+                let r = ps.store_update(&mut store).expect("store_update");
+                let head = hex(&store[8..8 + 48.min(store.len() - 8)]);
+                let slen = store.len();
+                let after = guarded(|| {
+                    let mut loader = Loader::new(&store[..]);
+                    let ps2 = PersistentState::load_from_location(&mut loader, r).expect("load_from_location");
+                    let h2 = hex(ps2.hash(&mut loader).as_ref());
+                    let look2 = ps2.lookup(&mut loader, &key);
+                    (h2, look2)
+                });
+                serde_json::json!({"key_bytes": n, "hash_before": h0, "lookup_before": look0.map(|v| hex(&v)),
+                    "store_len": slen, "root_record_head": head,
+                    "after_reload": match after {
+                        Ok((h2, l2)) => serde_json::json!({"hash": h2, "lookup": l2.map(|v| hex(&v))}),
+                        Err(e) => serde_json::json!({"panic": e}),
+                    }})
+            });
+            match r {
+                Ok(j) => println!("D bigkey {}", j),
+                Err(e) => println!("D bigkey {}", serde_json::json!({"panic": e})),
+            }
+        }
+        "status" => {
+            let seed: u64 = args[2].parse().unwrap();
+            let n: u64 = args[3].parse().unwrap();
+            let mut rng = Rng::new(seed ^ 0xC04_57A7);
+            let mut stats: BTreeMap<String, u64> = BTreeMap::new();
+            for i in 0..n {
+                status_case(&format!("k{}", i), &mut rng, &mut stats);
+            }
+            println!("S {}", serde_json::to_string(&stats).unwrap());
+        }
         _ => {
             eprintln!("usage: c04 hist|replay|directed ...");
             std::process::exit(2);
